@@ -105,6 +105,17 @@ AMBIENT = ()
 ALL_AMBIENT = ('fp', 'log', 'print', 'warn')
 
 
+class _Sink(__import__('logging').Handler):
+    def emit(self, record):
+        try:
+            self.format(record)
+        except Exception:
+            pass
+
+
+_SINK = _Sink(level=0)
+
+
 def ambient_for(mod, case):
     if isinstance(case, dict) and 'ambient' in case:
         return tuple(case['ambient'])
@@ -160,6 +171,12 @@ def ambient_ctx():
             off = logging.root.manager.disable
             logging.disable(logging.NOTSET)
             stack.callback(logging.disable, off)
+            # records are built and formatted by a handler of our own and go no further
+            prop = lg.propagate
+            lg.propagate = False
+            stack.callback(setattr, lg, 'propagate', prop)
+            lg.addHandler(_SINK)
+            stack.callback(lg.removeHandler, _SINK)
         yield
 
 
